@@ -49,6 +49,13 @@ def model_int(s, base=10):
             if c.branch(n > 4300):
                 raise ValueError("Exceeds the limit (4300 digits) for integer string conversion")
             return SInt(z3.StrToInt(s.t))
+        if getattr(c, "unroll", False):
+            # witness search may restrict inputs: one hex digit, exact value (so that the model replays natively)
+            code = z3.StrToCode(s.t)
+            c.assume_z3(z3.Length(s.t) == 1)
+            c.assume_z3(HEX_VALUE(s.t) == z3.If(code <= 57, code - 48, z3.If(code <= 70, code - 55, code - 87)))
+        c.assume_z3(HEX_VALUE(s.t) >= 0)
+        c.assume_z3((HEX_VALUE(s.t) == 0) == z3.InRe(s.t, _re("0+")))
         return SInt(HEX_VALUE(s.t))
     if c.branch(z3.InRe(s.t, acc)):
         if base == 10 and c.branch(n > 4300):
